@@ -113,6 +113,9 @@ var programs = []prog{
 	{Name: "ordered-pipeline", What: "shuffle-free pipeline (scan ORDER is fixed): ReaderFunc, Map, Filter, Flatmap, WriterFunc; 4 pragma positions",
 		P: refeval.Program{Src: refeval.Source{Kind: refeval.SrcReaderFunc, Schema: ii, Shards: 3, Rows: 9, Keys: refeval.KeysDistinct, Style: 0},
 			Ops: []refeval.Op{op(refeval.OpMap, refeval.MapAdd1), op(refeval.OpFilter, refeval.FilterAlt), op(refeval.OpFlatmap, refeval.Flat2), op(refeval.OpWriterFunc)}}},
+	{Name: "flatmap-eof-batch", What: "Flatmap (2 outputs per row) directly over a ReaderFunc that delivers its last rows TOGETHER with EOF (7 rows per shard: a full vector, then 3 rows + EOF at the default vector size), then a shuffle: the output vector fills at an input-row boundary while input delivered with the EOF is still buffered",
+		P: refeval.Program{Src: refeval.Source{Kind: refeval.SrcReaderFunc, Schema: ii, Shards: 2, Rows: 14, Keys: refeval.KeysDistinct, Style: 0},
+			Ops: []refeval.Op{op(refeval.OpFlatmap, refeval.Flat2), op(refeval.OpReshuffle)}}},
 	{Name: "cogroup3", What: "three-way Cogroup with one source used twice (once filtered)",
 		P: refeval.Program{Shape: refeval.ShapeCogroup3, Src: constSrc(ii, 3, 9, refeval.KeysCollide), Src2: constSrc(ii, 2, 5, refeval.KeysCollide),
 			Ops: []refeval.Op{op(refeval.OpMap, refeval.MapGroupSum)}}},
